@@ -185,6 +185,7 @@ package genql
 //@ global fullPattern immutable [C13]
 //@ global arrayPattern immutable [C13]
 //@ global pipePattern immutable [C13]
+//@ global groupColumnPath immutable [C13]
 //@ func ExecReader
 //@   locks[C13,C10,C19]
 //@   safety[C09]
